@@ -161,8 +161,18 @@ pub fn step_config() {
     let (st, mut gh) = any_state_and_ghost();
     let mut enc = Encapsulator::verif_from_parts(ConstCrc(0), st.0, st.1, st.2, st.3);
     let op: u8 = kani::any();
-    kani::assume(op < 4);
+    kani::assume(op < 5);
     match op {
+        4 => {
+            // changing the CRC calculator is not a re-use configuration call: the policy
+            // (activated, maximum), the counter and the memory are untouched
+            enc.set_crc_calculator(ConstCrc(kani::any()));
+            assert!(state_eq(&st, &enc.verif_parts()), "C15.set_crc_calculator_keeps_reuse_policy");
+            let _ = enc.get_crc_calculator();
+            let _ = enc.is_enabled_re_use_label();
+            assert!(state_eq(&st, &enc.verif_parts()), "C15.getters_keep_reuse_policy");
+            kani::cover!(st.1 > 0, "set_crc_with_max_configured");
+        }
         0 => {
             enc.reset_last_label();
             // both sides reset at the frame boundary
